@@ -168,6 +168,79 @@ CLAIMS = {
              "forecasters) are covered by the bounded native tier only",
         technique="contract-based deductive verification: AST->VC generation (pyvc) + z3/cvc5; raises-iff clauses per type case",
         design="6/C20"),
+    "C14": dict(
+        category="proof",
+        text="The numeric kernels of the closed-form transformers are verified against their defining formula for all sizes: "
+             "PaddingTransformer._create_pad (series then fill value up to the pad length), SlidingWindowSegmenter.transform (window t = "
+             "the w observations centred at t with edge values repeated; includes memory safety of the as_strided view; three loop "
+             "invariants + event schemas for the table assembly), IntervalSegmenter.fit/transform (equal consecutive intervals covering "
+             "the series; block k = fitted interval k of every instance), from_3d_numpy_to_2d_array (column-then-time order), "
+             "SeriesToPrimitives/SeriesToSeriesRowTransformer.transform (row i = wrapped transformer applied to instance i, fresh clone), "
+             "TabularToSeriesAdaptor.transform/inverse_transform (series as one column, index kept).",
+        note="NOT proved, bounded tier only (21k cases quick, real transformers vs plain-python formulas): truncation, interpolation, "
+             "column concatenation, PAA with fractional frames, random-interval feature extraction, slope, imputation rules, cosine, "
+             "autocorrelation -- their code is pandas nested-DataFrame plumbing or floating point; assumed contracts: "
+             "_concat_nested_arrays, _get_column_names, from_2d_array_to_nested, check_series; 1..3 fitted intervals",
+        technique="contract-based deductive verification: AST->VC generation (pyvc) + z3; loop invariants over 2-d/3-d arrays, event schemas",
+        design="6/C14"),
+    "C15": dict(
+        category="other",
+        text="Proved part: the two numpy reshape kernels (from_3d_numpy_to_2d_array: cell (i, c*T + t) = X[i, c, t]; "
+             "from_multi_index_to_3d_numpy: instance-major rows become (instance, column, time), rejects frames without 2 levels) and the "
+             "lemma that the 2-d layout loses nothing. Everything else in the property (nested / long / multi-index round trips through "
+             "pandas pivots and object cells) is decided only by the bounded stand-in tier and is NOT counted as proved.",
+        note="bounded tier: hand-built panels with 1..3 (thorough ..8) instances, 1..3 columns, 2..4 (..12) time points, 151k cases quick; "
+             "pandas (pivot, groupby, object cells) is outside the verifier's reach -- no model attempted",
+        technique="contract-based deductive verification of the numpy kernels (pyvc + z3); bounded native round-trip checks for the pandas conversions",
+        design="6/C15"),
+    "C16": dict(
+        category="proof",
+        text="Row form (output row i is a function of input row i and the fitted state only, rows in input order, one per instance) is "
+             "proved for: both row transformers (fresh clone of the wrapped transformer applied to instance i alone), the time series "
+             "forest classifier / regressor (tree t sees mean/std/slope of ITS intervals of each row; output = average over trees), the "
+             "column ensemble (member t on its own columns; average), the BOSS ensemble vote shares, sliding-window and fixed-interval "
+             "segmentation; a lemma derives permutation equivariance, sub-selection and single-instance consistency from the row form.",
+        note="wrapped transformers / trees / member classifiers are abstract and assumed to be row-wise maps themselves (sklearn trees, "
+             "individual BOSS); container independence (nested DataFrame vs 3-d array) rests on check_X / from_nested_to_3d_numpy and is "
+             "bounded-tier only (16k cases quick over every runnable panel estimator); 1..3 trees / members",
+        technique="contract-based deductive verification: AST->VC generation (pyvc) + z3; abstract components with ghost trace; level-2 lemma",
+        design="6/C16"),
+    "C17": dict(
+        category="proof",
+        text="Proved for all panels, label sets and class counts: _transform (interval features: columns 3j..3j+2 = mean, std, slope of "
+             "interval j of each row), TimeSeriesForestClassifier.predict_proba / Regressor.predict (= average of the trees' outputs on those "
+             "features, each tree on its own intervals), TimeSeriesForestClassifier.predict and BaseClassifier.predict (label of a column "
+             "attaining the row maximum, decoded through classes_ / the label encoder, one per instance), BaseClassifier.score "
+             "(accuracy_score(y, predict(X))), column ensemble predict_proba / predict (average of the members on their own columns; "
+             "dropped / empty / remainder entries), BOSSEnsemble.predict_proba (vote shares); lemmas: averages and vote shares of "
+             "distributions are distributions (entries in [0, 1], rows sum to 1 -- induction over the columns).",
+        note="trees / members / label encoder abstract; np.mean, np.std, _slope along a row window are uninterpreted functions of the "
+             "cells (assumed: _slope formula, _get_column, LabelEncoder.inverse_transform, accuracy_score); 1..3 trees / members; "
+             "RISE, STSF, cBOSS, TDE, MUSE and the individual BOSS classifier are bounded-tier only (5k cases quick)",
+        technique="contract-based deductive verification: AST->VC generation (pyvc) + z3; argmax axiomatisation, abstract components, induction lemmas",
+        design="6/C17"),
+    "C18": dict(
+        category="other",
+        text="Proved part (static, over the real AST of both functions): every header tag write_dataframe_to_tsfile can emit is either "
+             "understood by load_from_tsfile_to_dataframe or provably skipped by its dispatch chain, and every tag the parser requires is "
+             "written on every writer path. Value / label / shape round trips through the text format are decided only by the bounded "
+             "stand-in tier (string formatting and parsing are outside the verifier's reach) and are NOT counted as proved.",
+        note="bounded tier: write->load on univariate equal-length panels, (1, 2, 4) instances x (1..7) time points, 14 magnitude "
+             "families, class labels / regression targets, 41k cases quick",
+        technique="contract-based: constant-string analysis of the writer/parser ASTs as a lemma (pyvc); bounded native round trips",
+        design="6/C18"),
+    "C19": dict(
+        category="proof",
+        text="Orchestrator.fit_predict is verified for an arbitrary (task, dataset, strategy, fold) cell against an ABSTRACT result store "
+             "whose existence answers are arbitrary booleans (any earlier history, including an interrupted run): the strategy is fitted "
+             "once on exactly the fold's training rows iff something requested is missing, exactly the missing train / test predictions "
+             "and fitted strategy are produced and saved under (strategy name, dataset name, fold, part) with y_true taken from the same "
+             "rows, completed records are left alone, results are saved once at the end; RAMResults._generate_key is the 4-tuple of its "
+             "components, hence injective.",
+        note="the store, strategy, task and data frame are abstract; _iter (tasks x strategies x folds, fresh clone per fold) is "
+             "abstracted to 'an arbitrary cell'; HDDResults file layout, resume across processes and disk read-back are bounded-tier only",
+        technique="contract-based deductive verification: AST->VC generation (pyvc) + z3; per-iteration ghost-event schema",
+        design="6/C19"),
 }
 
 
